@@ -18,7 +18,7 @@ RULE = ("seeded invocations from every rejection class (no source; a missing sou
 ASSUMPTIONS = ["a --glob pattern that matches nothing is not claimed as a rejection class (the code documents it as a FIXME and the statement speaks of a missing source)"]
 
 CLASSES = ["no-source", "missing-source", "dir-without-r", "multi-to-absent", "multi-to-file", "dir-onto-file-dest", "dir-onto-file-mapped",
-           "same-as-dest", "noclobber-force", "bad-driver", "bad-reflink", "bad-backup", "bad-glob", "bad-blocksize", "glob-multi-to-nondir"]
+           "same-as-dest", "noclobber-force", "bad-driver", "bad-reflink", "bad-backup", "bad-glob", "bad-blocksize", "glob-multi-to-nondir", "target-directory-nondir", "bad-workers", "dangling-source"]
 
 
 def gen_cases(tier, seed):
@@ -112,6 +112,20 @@ def gen_cases(tier, seed):
             opts += ["--glob"]
             srcs = [r.choice(["v*", "v?", "./v*"])]
             dstate = r.choice(["absent", "file"])
+        elif cls == "target-directory-nondir":
+            # several sources with --target-directory naming something that is not a directory
+            if len(srcs) < 2:
+                spec.append({"p": "extra", "k": "f", "size": 4, "seed": 2, "segs": None})
+                srcs = ["v0", "extra"]
+            dstate = r.choice(["absent", "file"])
+            opts += ["--target-directory", "dst"]
+            dest = None
+        elif cls == "bad-workers":
+            opts += ["-w", r.choice(["abc", "-3", "1.5", ""])]
+        elif cls == "dangling-source":
+            spec.append({"p": "dang", "k": "l", "target": "nowhere-to-be-found"})
+            srcs.insert(pos, "dang")
+            opts.append("-L")
         elif cls == "bad-blocksize":
             opts += ["--block-size", r.choice(["12XB", "-5", "abc"])]
         pre = []
@@ -129,7 +143,8 @@ def gen_cases(tier, seed):
         noise = r.choice([[], [], [], ["--fsync"], ["--backup", "numbered"], ["--no-perms"], ["-L"], ["--gitignore"], ["--no-progress"], ["--reflink", "never"]])
         if cls in ("bad-backup", "bad-reflink") and noise and noise[0] in ("--backup", "--reflink"):
             noise = []
-        args = drv + ["-w", str(r.choice([1, 4]))] + opts + noise + srcs + [dest]
+        wopt = [] if cls == "bad-workers" else ["-w", str(r.choice([1, 4]))]
+        args = drv + wopt + opts + noise + srcs + ([dest] if dest is not None else [])
         yield {"spec": spec, "pre": pre, "args": args, "driver": driver, "cls": cls, "pos": pos if cls in ("missing-source", "dir-without-r", "dir-onto-file-mapped", "bad-glob") else -1,
                "nsrc": len(srcs), "dstate": dstate, "fs": "ext4"}
 
